@@ -773,6 +773,10 @@ class _Lift(ast.NodeTransformer):
             pa, ta = tr(node.value, self.env)
             if ta.startswith("list:"):
                 return self._emit("h", "phead %s" % pa, "rec:" + ta[5:])
+        if ast.unparse(node.slice) == "-1":
+            pa, ta = tr(node.value, self.env)
+            if ta.startswith("list:"):
+                return self._emit("h", "plast %s" % pa, "rec:" + ta[5:])
         raise Untranslatable("subscript " + ast.unparse(node))
 
     def visit_Attribute(self, node):
@@ -864,6 +868,8 @@ FUN_SITES = [
     #  definitions of the model to unfold, properties)
     ("Deme_size_at", "demes/demes.py", "Deme.size_at", [("self", "rec:deme"), ("time", N)], "(self : deme) (time : num)", "num",
      "forall self time, f_Deme_size_at self time = size_at self time", "size_at size_in_epoch epoch_owns", ["C13"]),
+    ("Deme_end_time", "demes/demes.py", "Deme.end_time", [("self", "rec:deme")], "(self : deme)", "num",
+     "forall self, f_Deme_end_time self = d_end self", "d_end plast", ["C01", "C03", "C13"]),
     ("Epoch_time_span", "demes/demes.py", "Epoch.time_span", [("self", "rec:epoch")], "(self : epoch)", "num",
      "forall self, f_Epoch_time_span self = Ok (m_time_span (e_start self) (e_end self))", "m_time_span", ["C13", "C07"]),
     ("to_ms_get_growth_rate", "demes/ms.py", "to_ms.get_growth_rate", [("epoch", "rec:epoch"), ("N0", N)], "(N0 : num) (epoch : epoch)",
@@ -954,6 +960,7 @@ Ltac ftie_step :=
   match goal with
   | |- context [phead ?l] => is_var l; destruct l
   | |- context [phead (?f ?l)] => let x := fresh in destruct (f l) eqn:x
+  | |- context [phead (rev ?l)] => let x := fresh in destruct (rev l) eqn:x
   | |- context [find ?f ?l] => let x := fresh in destruct (find f l) eqn:x
   | |- context [nisinf ?a] => let x := fresh in destruct (nisinf a) eqn:x
   | |- context [nlt ?a ?b] => let x := fresh in destruct (nlt a b) eqn:x
